@@ -4,7 +4,10 @@
 package yoda
 
 import (
+	"reflect"
 	"time"
+
+	abci "github.com/cometbft/cometbft/abci/types"
 
 	rpcclient "github.com/cometbft/cometbft/rpc/client"
 
@@ -22,10 +25,29 @@ import (
 
 // Verification exports (build tag verif; added by the /verif overlay, not part of the repository).
 
-var (
-	VerifHandleTransaction = handleTransaction
-	VerifHandleRequest     = handleRequest
-)
+// The daemon's entry points are called through reflection so that the harness keeps compiling when a change adds
+// parameters to them (extra parameters get their zero value, which is what the daemon's own start-up path passes for
+// "nothing known yet").
+
+// VerifHandleTransaction is `handleTransaction(c, l, tx)`.
+func VerifHandleTransaction(c *Context, l *Logger, tx abci.TxResult) { verifCall(handleTransaction, c, l, tx) }
+
+// VerifHandleRequest is `handleRequest(c, l, id)`.
+func VerifHandleRequest(c *Context, l *Logger, id types.RequestID) { verifCall(handleRequest, c, l, id) }
+
+func verifCall(fn any, args ...any) {
+	f := reflect.ValueOf(fn)
+	t := f.Type()
+	in := make([]reflect.Value, t.NumIn())
+	for i := range in {
+		if i < len(args) {
+			in[i] = reflect.ValueOf(args[i])
+		} else {
+			in[i] = reflect.Zero(t.In(i))
+		}
+	}
+	f.Call(in)
+}
 
 var verifKey *keyring.Record
 
